@@ -1,5 +1,5 @@
 /-! Drift guard for `FunModel.FaultPipe` (T-out): the hashes of the Go functions the process model
-    was written against (tree with the D10/D11 repairs), as printed by `tools/go2lean` (target
+    was written against (tree with the D10 repair e06dbb6 and the Map/GenerateParallel D11 repair c9331e6; `Iterator.ProcessParallel` is the unrepaired one), as printed by `tools/go2lean` (target
     C03Shapes: comment-free canonical print, sha256, 16 hex digits). `FunProps.C03.
     modelled_source_unchanged` compares them with the regenerated `FunGen.C03Shapes.shapes`; when a
     modelled function is edited the model has to be re-read against it and this list updated. -/
@@ -7,7 +7,7 @@
 namespace FunModel.FaultPipe
 
 def expectedShapes : List (String × String) := [
-  ("iterator.go:Iterator.ProcessParallel", "974e4965878bd592"),
+  ("iterator.go:Iterator.ProcessParallel", "9dbe7fc429166244"),
   ("iterator.go:Iterator.Split", "054ceced9baf7b00"),
   ("iterator.go:Iterator.ReadOne", "040ca36508442a90"),
   ("process.go:Processor.ReadAll", "67adf03131941c0d"),
